@@ -11,7 +11,7 @@ From RU Require Import Base.Prelude Base.Utf8 Base.Utf8Facts Model.AsciiSet Gen.
   Proofs.C06_FragQuery Proofs.C06_Suffix Proofs.C08_Input
   Proofs.C01_Tables Proofs.C01_EqRun Proofs.C01_EqEnc Proofs.C01_EqApi Proofs.C01_EqOpaque Proofs.C01_EqRef
   Proofs.C01_EqAuthSpec Proofs.C01_EqAuthModel Proofs.C01_EqAuth
-  Proofs.C07_Defs Proofs.C07_Corr Proofs.C07_EqFive Proofs.C07_EqOpaqueClass Proofs.C07_SpecProto.
+  Proofs.C07_Defs Proofs.C07_Corr Proofs.C07_EqFive Proofs.C07_EqOpaqueClass Proofs.C07_SpecProto Proofs.C07_EqSix.
 
 Lemma list10_inv5 {A} (a1 a2 a3 a4 a5 a6 a7 a8 a9 a10 b1 b2 b3 b4 b5 b6 b7 b8 b9 b10 : A) :
   Some [a1; a2; a3; a4; a5; a6; a7; a8; a9; a10] = Some [b1; b2; b3; b4; b5; b6; b7; b8; b9; b10] ->
@@ -126,3 +126,15 @@ Proof.
 Qed.
 
 End AuthCorr.
+
+Theorem corrS_auth dbg shs sch un pw ht hi sh po segs q f :
+  auth_ok shs sch un pw ht hi sh po segs q f ->
+  (hi = HI_None <-> sh = SEmpty) -> (ht = [] -> hi = HI_None) -> starts_with_cp 64 ht = false ->
+  clean T_USERINFO un = true -> (hi = HI_None -> un = [] /\ pw = []) ->
+  corrS dbg shs (auth_url sch un pw ht hi po (flat_map (fun s => 47 :: s) segs) q f)
+                (spec_auth_url sch un pw sh po segs q f).
+Proof.
+  intros K X1 X2 X3 X4 X5. split.
+  - exact (corr_auth dbg shs sch un pw ht hi sh po segs q f K X1 X2 X3 X4 X5).
+  - exact (sane_auth shs sch un pw ht hi sh po segs q f K X1 X4 X5).
+Qed.
